@@ -8,6 +8,7 @@ import (
 	"fmt"
 	"io"
 	"strconv"
+	"strings"
 	"time"
 
 	toml "github.com/pelletier/go-toml/v2/unstable"
@@ -156,6 +157,11 @@ func (dec *tomlDecoder) createBoolScalar(tomlNode *toml.Node) (*CandidateNode, e
 
 func (dec *tomlDecoder) createIntegerScalar(tomlNode *toml.Node) (*CandidateNode, error) {
 	content := string(tomlNode.Data)
+	if strings.HasPrefix(content, "0b") {
+		// TOML binary integer: parseInt64 (and everything downstream) has no 0b form, keep it in decimal
+		num, err := strconv.ParseInt(strings.ReplaceAll(content[2:], "_", ""), 2, 64)
+		return createScalarNode(num, strconv.FormatInt(num, 10)), err
+	}
 	_, num, err := parseInt64(content)
 	return createScalarNode(num, content), err
 }
